@@ -20,51 +20,66 @@ ALL_KINDS = {"typedef", "obj", "fdecl", "enum", "enum2", "enumS", "member", "tag
 DEV_ITEMS = {"forinit", "krfunc", "enum2", "enumS", "enum", "label"}
 
 
-def render(prog, shape):
-    """C text of a history; the final probe in `shape`.  Returns (text, probe descriptor)."""
+# Alternative spellings of an item: same effect on the scope (C99 6.2.1), different declaration syntax.  %n is the
+# name, %i the item index (fresh auxiliary names).
+SPELL = {
+    "typedef": ["typedef int %n;", "typedef int *%n;", "typedef struct { int x; } %n;", "typedef int zt%i, %n;",
+                "typedef int %n[2];", "int typedef %n;", "typedef enum { ET%i } %n;", "typedef int (*%n)(int zp%i);"],
+    "obj": ["int %n;", "int *%n;", "int %n[2];", "int zo%i, %n;", "int %n = 1;", "enum EO%i { EA%i } %n = EA%i;",
+            "enum { EB%i } *%n;", "struct SO%i { int x; } %n;", "int zo%i = 2, *%n = 0;", "const int (*%n)[2];"],
+    "fdecl": ["int %n(void);", "int %n();", "int *%n(int);", "int zf%i, %n(int zq%i);"],
+    "proto": ["void g%i(int %n);", "void g%i(int %n, ...);", "struct SPr%i { void (*cb)(int %n); };", "void g%i(int %n[]);",
+              "void (*gp%i)(int %n);", "int g%i(int zq%i, int *%n);", "void g%i(void (*cb)(int %n));"],
+    "func": ["void f(int %n) {", "void f(int *%n) {", "void f(int zq%i, int %n) {", "void f(int %n[]) {", "int f(int %n, ...) {"],
+    "func0": ["void f(void) {", "void f() {", "int f() {", "f() {", "static int *f() {"],
+    "forinit": ["for (int %n = 0;;) { }", "for (int zq%i = 0, %n = 1;;) ;", "for (int *%n = 0;;) { }"],
+    "enum": ["enum { %n };", "enum { %n = 1 };", "enum EE%i { %n, };"],
+    "member": ["struct SM%i { int %n; };", "union SM%i { int zm%i; int *%n; };", "struct SM%i { int %n : 2; };"],
+    "tag": ["struct %n { int x; };", "union %n { int x; };", "enum %n { ETG%i };"],
+    "open": ["{", "{", "if (xx) {", "while (xx) {", "do {", "switch (xx) {"],
+}
+
+
+def spell(k, n, i, variant):
+    alts = SPELL[k]
+    t = alts[0] if variant is None else alts[variant.randrange(len(alts))]
+    return t.replace("%n", str(n)).replace("%i", str(i))
+
+
+def render(prog, shape, variant=None):
+    """C text of a history; the final probe in `shape`; `variant` (a random.Random) picks alternative spellings
+    of the items.  Returns (text, probe descriptor)."""
     out = []
+    closers = []
     depth = 0
     probe = None
     last = len(prog) - 1
     for i, it in enumerate(prog):
         k = it[0]
         n = it[1] if len(it) > 1 else None
-        if k == "typedef":
-            out.append("typedef int %s;" % n)
-        elif k == "obj":
-            out.append("int %s;" % n)
-        elif k == "fdecl":
-            out.append("int %s(void);" % n)
-        elif k == "enum":
-            out.append("enum { %s };" % n)
+        if k in ("typedef", "obj", "fdecl", "enum", "member", "tag", "proto", "forinit"):
+            out.append(spell(k, n, i, variant))
+        elif k in ("func", "func0"):
+            out.append(spell(k, n, i, variant))
+            closers.append("}")
+            depth += 1
+        elif k == "open":
+            t = spell(k, n, i, variant)
+            out.append(t)
+            closers.append("} while (xx);" if t.startswith("do") else "}")
+            depth += 1
         elif k == "enum2":
             out.append("enum { %s, EZ%d };" % (n, i))
         elif k == "enumS":
             out.append("struct SE%d { enum { %s } e; };" % (i, n))
-        elif k == "member":
-            out.append("struct SM%d { int %s; };" % (i, n))
-        elif k == "tag":
-            out.append("struct %s { int x; };" % n)
         elif k == "label":
             out.append("%s: ;" % n)
-        elif k == "proto":
-            out.append("void g%d(int %s);" % (i, n))
-        elif k == "forinit":
-            out.append("for (int %s = 0;;) { }" % n)
-        elif k == "func":
-            out.append("void f(int %s) {" % n)
-            depth += 1
-        elif k == "func0":
-            out.append("void f(void) {")
-            depth += 1
         elif k == "krfunc":
             out.append("void f(%s) int %s; {" % (n, n))
-            depth += 1
-        elif k == "open":
-            out.append("{")
+            closers.append("}")
             depth += 1
         elif k == "close":
-            out.append("}")
+            out.append(closers.pop())
             depth -= 1
         elif k == "probeI":
             out.append("int qi%d[] = { sizeof(%s) };" % (i, n))
@@ -90,7 +105,7 @@ def render(prog, shape):
                 pr = ("paren", "d%d" % i)
             if i == last:
                 probe = pr
-    out.extend("}" * depth)
+    out.extend(reversed(closers))
     return " ".join(out), probe
 
 
@@ -150,8 +165,12 @@ def check_history(case):
     final = prog[-1]
     name, truth, mech = final[1], final[2], final[3]
     dev = sorted({it[0] for it in prog if it[0] in DEV_ITEMS})
-    for sh in shapes_for(prog, case["depth"]):
-        src, probe = render(prog, sh)
+    import zlib
+    vseed = zlib.crc32(json.dumps(prog).encode())
+    runs = [(sh, None) for sh in shapes_for(prog, case["depth"])]
+    runs += [(sh, random.Random(vseed + j)) for j, (sh, _) in enumerate(list(runs))]
+    for sh, variant in runs:
+        src, probe = render(prog, sh, variant)
         try:
             ast = c_parser.CParser().parse(src, "s.c")
         except Exception as e:
@@ -176,7 +195,7 @@ def _work(chunk):
     n = 0
     for case in chunk:
         f = check_history(case)
-        n += len(shapes_for(case["prog"], case["depth"]))
+        n += 2 * len(shapes_for(case["prog"], case["depth"]))
         if f:
             out.append((case, f))
     return len(chunk), n, out
